@@ -672,9 +672,9 @@ def unjailValidator (s : State) (h : Int) (a : Addr) : State :=
     if v.jailed = false then s
     else resetSigningInfo ((setValidator s { v with jailed := false }).emit (.unjailed a)) a h
 
-/-- `handleMsgUnjail` (`ValidateUnjailMessage` + `UnjailValidator`); `now` is the wall clock read by
-`time.Now()` inside `ValidateUnjailMessage` -/
-def handleUnjail (s : State) (h t now : Int) (a signer : Addr) : State × Res :=
+/-- `handleMsgUnjail` (`ValidateUnjailMessage` + `UnjailValidator`) after /repo 286039a: the jail period is compared with
+the block time only (the earlier code also compared it with `time.Now()`, the wall clock of the executing node — C12) -/
+def handleUnjail (s : State) (h t : Int) (a signer : Addr) : State × Res :=
   match aget s.vals a with
   | none => (s, .err 101)
   | some v =>
@@ -684,8 +684,7 @@ def handleUnjail (s : State) (h t now : Int) (a signer : Addr) : State × Res :=
     else match aget s.signInfo v.addr with
       | none => (s, .err 101)
       | some si =>
-        if si.jailedUntil > now then (s, .err 104)
-        else if t < si.jailedUntil then (s, .err 104)
+        if t < si.jailedUntil then (s, .err 104)
         else (unjailValidator s h v.addr, .ok)
 
 /-! ## Genesis (genesis.go) -/
@@ -709,7 +708,7 @@ def initGenesis (p : Params) (vs : List Val) (bal : List (Addr × Int)) (supply0
 inductive Op where
   | stake (h : Int) (m : StakeMsg) (signer : Addr)
   | beginUnstake (a signer : Addr)
-  | unjail (h t now : Int) (a signer : Addr)
+  | unjail (h t : Int) (a signer : Addr)
   | burn (a : Addr) (amount : Int)
   | beginBlock (h t : Int) (votes : List Vote) (evs : List Evidence)
   | endBlock (h t : Int)
@@ -731,7 +730,7 @@ def Op.isPoolSend : Op → Bool
 def step (s : State) : Op → State
   | .stake h m signer => (handleStake s h m signer).1
   | .beginUnstake a signer => (handleBeginUnstake s a signer).1
-  | .unjail h t now a signer => (handleUnjail s h t now a signer).1
+  | .unjail h t a signer => (handleUnjail s h t a signer).1
   | .burn a amount => simpleSlash s a amount
   | .beginBlock h t votes evs => beginBlock s h t votes evs
   | .endBlock h t => (endBlock s h t).1
